@@ -9,6 +9,12 @@ CHECKS = {
  "C10": dict(cat="model_checking", sec="4/C10", tech="explicit-state BFS to the fixed point over reader-operation histories, every transition executed on the real readers in lock-step with a cursor model",
    text="All histories of 37 reader operations on pools of <=2 (quick, 6-byte buffer) / <=3 (thorough, 8-byte buffer) live readers, closed under BFS (finite window space), for EndianSlice, EndianRcSlice, EndianArcSlice, RelocateReader(identity) over both, and EndianReader over a custom canary-guarded buffer with liveness accounting; after every transition every live reader is observed (length, bytes, zero-copy pointer, offsets, ids, find, strings).",
    note="Trusted: the cursor model in gv/src/bin/c10.rs. Buffers larger than 8 bytes and pools larger than 3 are not explored. Provenance-level UB is outside what pointer-range/canary monitors can see."),
+ "C01": dict(cat="fault_enumeration", sec="4/C01", tech="bounded exhaustive fault enumeration: every short byte string, every extreme value of every numeric field of well-formed seeds, every truncation point, every failing reader operation, every answer sequence, driven through every public entry point in crash-isolated workers (opt-level 0 with overflow checks, and release)",
+   text="Coverage statement per sub-space (see evidence bounds): all byte strings of length <=2 (<=3 in thorough/release) as each of 21 section kinds, all strings of length 3..4 (..6) over a 12-byte alphabet, all 256 opcodes x 13x13 operand patterns in expressions/line programs/CFI, every numeric field of 30 seeds x 16 extreme values (and nearby pairs), every truncation, the k-th reader operation failing once or persistently for every k, every answer sequence of depth 2 (3) to the expression evaluator, splices, and 16 depth/length stressors up to 2^18 (2^22); oracle = no panic/abort/stack overflow/hang, iterators bounded by 4L+64 calls with errors ignored, documented stop-after-error. Crashes are attributed to the exact case through per-worker slot files.",
+   note="Trusted: the harness drivers respect documented API preconditions. Inputs longer than the stressors, more than two simultaneous field mutations or faults, and memory exhaustion are not covered. Three recorded findings are listed in known_findings.txt."),
+ "C20": dict(cat="model_checking", sec="4/C20", tech="explicit-state exploration of all histories of reuse actions on the real objects (BFS with Debug-rendering keys to the fixed point, plus exhaustive fixed-length histories), oracle = freshly constructed state",
+   text="All histories of length 3 (quick) / 4 (thorough) over 54 unwind actions on one reused UnwindContext (13 FDEs incl. every failure kind, 4 storages) plus BFS to the fixed point over context states; every order of reads into a reused entry buffer incl. injected errors; every sequence of root/child/sibling/abandon on re-rooted EntriesTrees over all ordered trees; clones of 24 iterator types at every position; every resume order of line sequences; every partition of abbreviation offsets x cache strategy. Each step is compared with fresh state.",
+   note="Trusted: fresh state as the oracle (results on fresh state are decided by C02-C08). Iterator types that are not Clone are out of the clone clause. Histories longer than the bounds rely on the BFS closure argument (state key = Debug rendering of the whole context)."),
 }
 PLANNED = ["C01","C02","C03","C04","C05","C06","C07","C08","C11","C12","C13","C14","C15","C16","C17","C18","C19","C20"]
 def main():
